@@ -221,21 +221,31 @@ Definition prod_weight (g : grammar) (x : ty) : Q :=
   | None => 1%Q
   end.
 
-(* the weights ProgressivelyTerminalDecider hands to choice_weighted *)
+(* the weights ProgressivelyTerminalDecider hands to choice_weighted; an alternative that cannot reach a terminal
+   (distance INF) gets 0 (repair of F38) *)
 Fixpoint prog_weights (g : grammar) (target : Z) (ctx : sctx) (l : list ty) : res (list Q) :=
   match l with
   | [] => Ok []
   | x :: t =>
-      let* w := (if in_rec g x then Ok (target / (c_depth ctx + 1))
-                 else let* v := gdist_ty g x in Ok (Z.max (target - v) 0)) in       (* clamped (repair of F44) *)
+      let* v := gdist_ty g x in
+      let w := (if INF <=? v then 0
+                else if in_rec g x then target / (c_depth ctx + 1)
+                else Z.max (target - v) 0) in                                   (* clamped (repair of F44) *)
       let* r := prog_weights g target ctx t in
       Ok ((inject_Z w * prod_weight g x)%Q :: r)
+  end.
+
+(* the production weights of the alternatives that can reach a terminal *)
+Fixpoint prog_fallback (g : grammar) (l : list ty) : res (list Q) :=
+  match l with
+  | [] => Ok []
+  | x :: t => let* v := gdist_ty g x in let* r := prog_fallback g t in Ok ((if INF <=? v then 0%Q else prod_weight g x) :: r)
   end.
 
 (* `if not any(weights)`: when the depth heuristic leaves no candidate the production weights alone decide (repair of F42) *)
 Definition prog_final_weights (g : grammar) (target : Z) (ctx : sctx) (alts : list ty) : res (list Q) :=
   let* ws := prog_weights g target ctx alts in
-  Ok (if forallb (fun q => Qeq_bool q 0) ws then map (prod_weight g) alts else ws).
+  if forallb (fun q => Qeq_bool q 0) ws then prog_fallback g alts else Ok ws.
 
 (* the depth the progressive decider steers towards: the grammar's maximum node depth, or an estimate when some symbol is unproductive *)
 Definition prog_target (g : grammar) : res Z :=
@@ -273,7 +283,9 @@ Definition choose (g : grammar) (k : dkind) (key : ty) (alts : list ty) (ctx : s
   | DProg =>
       do* target := lift (prog_target g) in
       do* ws' := lift (prog_final_weights g target ctx alts) in
-      on_src (fun s => choice_weighted s alts ws')
+      (* nothing that can reach a terminal has a positive weight: no admissible choice (repair of F38, second part) *)
+      if forallb (fun q => Qeq_bool q 0) ws' then fail SynthesisException
+      else on_src (fun s => choice_weighted s alts ws')
   | DDsge D =>
       do* v := dsge_read key in
       do* l := lift (filter_res (fits g D ctx) alts) in
@@ -288,7 +300,7 @@ Definition decider_validate (g : grammar) (k : dkind) : res unit :=
   match k with
   | DMax D | DFull D | DPI D => let* mn := min_tree_depth g in if D <? mn then Err GeneticEngineError else Ok tt
   | DDsge D => let* mn := min_tree_depth g in if D <? mn then Err GeneticEngineError else Ok tt
-  | DProg => Ok tt
+  | DProg => let* mn := min_tree_depth g in if INF <=? mn then Err GeneticEngineError else Ok tt      (* repair of F38 *)
   end.
 
 (* ---------- metahandlers ---------- *)
